@@ -546,6 +546,8 @@ Definition evalF (ev : env -> expr -> res value) (bind : env -> pat -> value -> 
                                       | Some h => filter (fun y => negb (name_in y names)) h
                                       | None => names
                                       end else names in
+            (* nest ~|all attributes| is refused by the implementation on purpose ("nest attrs cannot be on all of relation attrs") *)
+            if inv && (match names' with [] => true | _ => false end) && (match l with [] => false | _ => true end) then Unspec else
             do r <- nest_data names' n l; Ok (D r)
         | _ => Err
         end
